@@ -170,3 +170,206 @@ Proof.
   destruct (refines_map f P2 C2 h st2 rs NC H2 NB2) as [k2 [E2 [_ [T2 _]]]].
   assert (k1 = l1) by congruence. assert (k2 = l2) by congruence. subst. rewrite T1, T2. reflexivity.
 Qed.
+
+(* ---- when the heap overflow is refused (p_ovf_err = true: the tree with the proposed repair) the
+        storage can never be damaged, so the refinement needs no side condition on the volume ---- *)
+Section Repaired.
+Variable name_hash : bytes -> N.
+Variable P : params.
+Hypothesis Hovf : p_ovf_err P = true.
+
+Lemma step_not_broken : forall st o st' r, st <> Broken -> step name_hash P st o = (st', r) -> st' <> Broken.
+Proof.
+  intros st o st' r NB H. destruct o as [n [v|]|n]; cbn [step write_attr delete_attr] in H.
+  - destruct st as [attrs|ix hp|]; [| |contradiction].
+    + assert (T : forall st0 r0, transition name_hash P attrs (mkAttr n v) = (st0, r0) -> st0 <> Broken).
+      { intros st0 r0 HT. unfold transition in HT. rewrite Hovf in HT.
+        destruct (daw_add_all name_hash P [] [] heap_empty (attrs ++ [mkAttr n v])); try (inversion HT; subst; discriminate).
+        destruct (p_limit P <? p_base P + (4 + p_info P)); inversion HT; subst; discriminate. }
+      destruct (N.of_nat (List.length attrs) <? p_maxc P); [|eapply T; eassumption].
+      unfold write_compact in H. destruct (encode_attr (mkAttr n v)); try (inversion H; subst; discriminate).
+      destruct (replace_name (aname (mkAttr n v)) (mkAttr n v) attrs).
+      * destruct (p_limit P <? hdr_size P l); inversion H; subst; discriminate.
+      * destruct (p_limit P <? hdr_size P attrs + (4 + size)); [eapply T; eassumption | inversion H; subst; discriminate].
+    + unfold write_dense in H. rewrite Hovf in H. destruct (encode_attr (mkAttr n v)); try (inversion H; subst; discriminate).
+      destruct (idx_search (name_hash (aname (mkAttr n v))) ix).
+      * destruct (heap_get hp h); [|inversion H; subst; discriminate].
+        destruct (size =? snd h).
+        -- destruct (heap_overwrite hp h (mkAttr n v)); inversion H; subst; discriminate.
+        -- destruct (heap_delete hp h); [|inversion H; subst; discriminate].
+           destruct (heap_insert P h0 (mkAttr n v)); try (inversion H; subst; discriminate).
+           destruct (idx_update (name_hash (aname (mkAttr n v))) id ix); inversion H; subst; discriminate.
+      * destruct (heap_insert P hp (mkAttr n v)); try (inversion H; subst; discriminate).
+        destruct (idx_insert P (name_hash (aname (mkAttr n v)), id) ix); inversion H; subst; discriminate.
+  - inversion H; subst; exact NB.
+  - destruct st as [attrs|ix hp|]; [| |contradiction]; cbn [delete_attr] in H.
+    + destruct (remove_name n attrs); inversion H; subst; discriminate.
+    + destruct n as [|b t]; [inversion H; subst; discriminate|].
+      destruct (idx_search (name_hash (b :: t)) ix) as [h|]; [|inversion H; subst; discriminate].
+      destruct (idx_delete (name_hash (b :: t)) ix); [|inversion H; subst; discriminate].
+      destruct (heap_delete hp h); inversion H; subst; discriminate.
+Qed.
+
+Lemma run_not_broken : forall h st st' rs, st <> Broken -> run name_hash P st h = (st', rs) -> st' <> Broken.
+Proof.
+  induction h as [|o h IH]; intros st st' rs NB H; cbn [run] in H.
+  - inversion H; subst; exact NB.
+  - destruct (step name_hash P st o) as [st1 x] eqn:S. destruct (run name_hash P st1 h) as [st2 xs] eqn:R.
+    inversion H; subst. eapply IH; [|exact R]. eapply step_not_broken; [exact NB | exact S].
+Qed.
+
+Theorem refines_map_repaired : forall h st rs,
+  p_hcap P <= 65536 ->
+  NoHashCollision name_hash (names h) ->
+  run name_hash P init h = (st, rs) ->
+  exists l, read_attrs st = Some l /\ NoDup (map aname l) /\
+            (forall n, attr_get l n = sp_get (run_spec [] h rs) n) /\
+            results_ok [] h rs.
+Proof.
+  intros h st rs C NC H. apply (refines_map name_hash P C h st rs NC H).
+  eapply run_not_broken; [|exact H]. discriminate.
+Qed.
+
+End Repaired.
+
+(* ---- a closed-form side condition for the current tree: the heap cannot overflow while the total
+        encoded size of all values ever written to the object stays within one direct block ---- *)
+Section Volume.
+Variable name_hash : bytes -> N.
+Variable P : params.
+
+Definition op_volume (o : op) : N :=
+  match o with OWrite n (Some v) => msg_size (mkAttr n v) | _ => 0 end.
+Fixpoint volume (h : list op) : N := match h with [] => 0 | o :: r => op_volume o + volume r end.
+
+Fixpoint msgs_total (l : list attr) : N := match l with [] => 0 | a :: r => msg_size a + msgs_total r end.
+Definition vol (st : state) : N :=
+  match st with Compact attrs => msgs_total attrs | Dense _ hp => hfree hp | Broken => 0 end.
+
+Lemma msgs_total_app : forall l1 l2, msgs_total (l1 ++ l2) = msgs_total l1 + msgs_total l2.
+Proof. induction l1 as [|a l1 IH]; intro l2; cbn [app msgs_total]; [lia | rewrite IH; lia]. Qed.
+
+Lemma replace_name_total : forall l n a l', replace_name n a l = Some l' -> msgs_total l' <= msgs_total l + msg_size a.
+Proof.
+  intros l n a l' H. destruct (replace_name_split _ _ _ _ H) as [l1 [x [l2 [-> [_ [-> _]]]]]].
+  rewrite !msgs_total_app. cbn [msgs_total]. lia.
+Qed.
+
+Lemma remove_name_total : forall l n l', remove_name n l = Some l' -> msgs_total l' <= msgs_total l.
+Proof.
+  intros l n l' H. destruct (remove_name_split _ _ _ H) as [l1 [x [l2 [-> [_ [-> _]]]]]].
+  rewrite !msgs_total_app. cbn [msgs_total]. lia.
+Qed.
+
+Lemma heap_insert_fits : forall hp a, hfree hp + msg_size a <= p_hcap P ->
+  match heap_insert P hp a with HOk hp' _ => hfree hp' = hfree hp + msg_size a | HErr => True | HFull => False end.
+Proof.
+  intros hp a F. unfold heap_insert. destruct (msg_size a =? 0); [exact I|].
+  destruct (p_maxobj P <? msg_size a); [exact I|].
+  destruct (N.leb_spec (hfree hp + msg_size a) (p_hcap P)); [reflexivity | lia].
+Qed.
+
+Lemma daw_volume : forall todo seen ix hp, hfree hp + msgs_total todo <= p_hcap P ->
+  match daw_add_all name_hash P seen ix hp todo with
+  | TOk _ hp' => hfree hp' = hfree hp + msgs_total todo
+  | TFull => False
+  | _ => True
+  end.
+Proof.
+  induction todo as [|a r IH]; intros seen ix hp F; cbn [daw_add_all msgs_total] in *; [lia|].
+  destruct (aname a) as [|b t] eqn:EN; [exact I|]. rewrite <- EN in *.
+  destruct (existsb (bytes_eqb (aname a)) seen); [exact I|].
+  destruct (encode_attr a); try exact I.
+  pose proof (heap_insert_fits hp a ltac:(lia)) as HF.
+  destruct (heap_insert P hp a) as [hp1 id| |]; [|exact I|exact HF].
+  destruct (idx_insert P (name_hash (aname a), id) ix) as [ix1|]; [|exact I].
+  specialize (IH (aname a :: seen) ix1 hp1).
+  assert (F1 : hfree hp1 + msgs_total r <= p_hcap P) by lia.
+  specialize (IH F1). destruct (daw_add_all name_hash P (aname a :: seen) ix1 hp1 r); try exact IH. lia.
+Qed.
+
+Lemma heap_delete_hfree : forall hp id hp1, heap_delete hp id = Some hp1 -> hfree hp1 = hfree hp.
+Proof. intros hp id hp1 H. unfold heap_delete in H. destruct (assoc_del (fst id) (hobjs hp)); inversion H; reflexivity. Qed.
+Lemma heap_overwrite_hfree : forall hp id a hp1, heap_overwrite hp id a = Some hp1 -> hfree hp1 = hfree hp.
+Proof. intros hp id a hp1 H. unfold heap_overwrite in H. destruct (assoc_set (fst id) a (hobjs hp)); inversion H; reflexivity. Qed.
+
+Lemma transition_volume : forall attrs a st0 r0,
+  msgs_total attrs + msg_size a <= p_hcap P -> transition name_hash P attrs a = (st0, r0) ->
+  st0 <> Broken /\ vol st0 <= msgs_total attrs + msg_size a.
+Proof.
+  intros attrs a st0 r0 F H. unfold transition in H.
+  pose proof (daw_volume (attrs ++ [a]) [] [] heap_empty) as DV.
+  rewrite msgs_total_app in DV. cbn [msgs_total heap_empty hfree] in DV. specialize (DV ltac:(lia)).
+  destruct (daw_add_all name_hash P [] [] heap_empty (attrs ++ [a])) as [ix hp| | |].
+  - destruct (p_limit P <? p_base P + (4 + p_info P)); inversion H; subst; cbn [vol]; split; try discriminate; lia.
+  - inversion H; subst; cbn [vol]; split; [discriminate | lia].
+  - inversion H; subst; cbn [vol]; split; [discriminate | lia].
+  - destruct DV.
+Qed.
+
+Lemma step_volume : forall st o st' r, st <> Broken -> vol st + op_volume o <= p_hcap P ->
+  step name_hash P st o = (st', r) -> st' <> Broken /\ vol st' <= vol st + op_volume o.
+Proof.
+  intros st o st' r NB F H. destruct o as [n [v|]|n]; cbn [step write_attr delete_attr op_volume] in *.
+  - destruct st as [attrs|ix hp|]; [| |contradiction]; cbn [vol] in *.
+    + destruct (N.of_nat (List.length attrs) <? p_maxc P); [|eapply transition_volume; eassumption].
+      unfold write_compact in H. destruct (encode_attr (mkAttr n v)) as [sz| |];
+        try (inversion H; subst; cbn [vol]; split; [discriminate | lia]).
+      destruct (replace_name (aname (mkAttr n v)) (mkAttr n v) attrs) as [attrs'|] eqn:RN.
+      * apply replace_name_total in RN.
+        destruct (p_limit P <? hdr_size P attrs'); inversion H; subst; cbn [vol]; split; try discriminate; lia.
+      * destruct (p_limit P <? hdr_size P attrs + (4 + sz)); [eapply transition_volume; eassumption|].
+        inversion H; subst; cbn [vol]. rewrite msgs_total_app. cbn [msgs_total]. split; [discriminate | lia].
+    + unfold write_dense in H.
+      destruct (encode_attr (mkAttr n v)) as [sz| |]; try (inversion H; subst; cbn [vol]; split; [discriminate | lia]).
+      destruct (idx_search (name_hash (aname (mkAttr n v))) ix) as [id|].
+      * destruct (heap_get hp id); [|inversion H; subst; cbn [vol]; split; [discriminate | lia]].
+        destruct (sz =? snd id).
+        -- destruct (heap_overwrite hp id (mkAttr n v)) as [hp1|] eqn:OV; inversion H; subst; cbn [vol]; (split; [discriminate|]); [|lia].
+           apply heap_overwrite_hfree in OV. lia.
+        -- destruct (heap_delete hp id) as [hp1|] eqn:DL; [|inversion H; subst; cbn [vol]; split; [discriminate | lia]].
+           apply heap_delete_hfree in DL.
+           pose proof (heap_insert_fits hp1 (mkAttr n v) ltac:(lia)) as HF.
+           destruct (heap_insert P hp1 (mkAttr n v)) as [hp2 id2| |]; [| |destruct HF].
+           ++ destruct (idx_update (name_hash (aname (mkAttr n v))) id2 ix); inversion H; subst; cbn [vol]; split; try discriminate; lia.
+           ++ inversion H; subst; cbn [vol]; split; [discriminate | lia].
+      * pose proof (heap_insert_fits hp (mkAttr n v) ltac:(lia)) as HF.
+        destruct (heap_insert P hp (mkAttr n v)) as [hp2 id2| |]; [| |destruct HF].
+        -- destruct (idx_insert P (name_hash (aname (mkAttr n v)), id2) ix); inversion H; subst; cbn [vol]; split; try discriminate; lia.
+        -- inversion H; subst; cbn [vol]; split; [discriminate | lia].
+  - inversion H; subst. split; [exact NB | lia].
+  - destruct st as [attrs|ix hp|]; [| |contradiction]; cbn [delete_attr vol] in *.
+    + destruct (remove_name n attrs) as [attrs'|] eqn:RM; inversion H; subst; cbn [vol]; (split; [discriminate|]); [|lia].
+      apply remove_name_total in RM. lia.
+    + destruct n as [|b t]; [inversion H; subst; cbn [vol]; split; [discriminate | lia]|].
+      destruct (idx_search (name_hash (b :: t)) ix) as [id|]; [|inversion H; subst; cbn [vol]; split; [discriminate | lia]].
+      destruct (idx_delete (name_hash (b :: t)) ix); [|inversion H; subst; cbn [vol]; split; [discriminate | lia]].
+      destruct (heap_delete hp id) as [hp1|] eqn:DL; inversion H; subst; cbn [vol]; (split; [discriminate|]); [|lia].
+      apply heap_delete_hfree in DL. lia.
+Qed.
+
+Lemma run_volume : forall h st st' rs, st <> Broken -> vol st + volume h <= p_hcap P ->
+  run name_hash P st h = (st', rs) -> st' <> Broken.
+Proof.
+  induction h as [|o h IH]; intros st st' rs NB F H; cbn [run volume] in *.
+  - inversion H; subst; exact NB.
+  - destruct (step name_hash P st o) as [st1 x] eqn:S. destruct (run name_hash P st1 h) as [st2 xs] eqn:R.
+    inversion H; subst. destruct (step_volume st o st1 x NB ltac:(lia) S) as [NB1 V1].
+    eapply IH; [exact NB1 | | exact R]. lia.
+Qed.
+
+(* C02_refines_map with the side condition in closed form *)
+Theorem refines_map_volume : forall h st rs,
+  p_hcap P <= 65536 ->
+  NoHashCollision name_hash (names h) ->
+  volume h <= p_hcap P ->
+  run name_hash P init h = (st, rs) ->
+  exists l, read_attrs st = Some l /\ NoDup (map aname l) /\
+            (forall n, attr_get l n = sp_get (run_spec [] h rs) n) /\
+            results_ok [] h rs.
+Proof.
+  intros h st rs C NC V H. apply (refines_map name_hash P C h st rs NC H).
+  eapply run_volume; [| |exact H]; [discriminate | cbn [vol init msgs_total]; lia].
+Qed.
+
+End Volume.
